@@ -73,3 +73,30 @@ package os
 //@                       osPathOf(r.(*FS), g, s, n) == osPathOf(fs, g, s, pjoin(dir, n))))))
 //@   ensures "inv" implies(err == nil, (r.(*FS).root == "" || VP(r.(*FS).root)) && !hasSuffix(r.(*FS).volumeName, "/") && !hasSuffix(r.(*FS).volumeName, "\\"))
 //@   nopanic
+
+//@ func (fs *FS) rootedPath(op string, name string) (r string, e *hackpadfs.PathError)
+//@   props C09 C04
+//@   requires fs != nil
+//@   ensures "gate" implies(!VP(name), r == "" && e != nil && e.Err == hackpadfs.ErrInvalid && e.Path == name && e.Op == op)
+//@   ensures "join" implies(VP(name), e == nil && r == osPathOf(fs, "linux", '/', name))
+//@   pure
+//@   nopanic
+
+//@ func (fs *FS) ToOSPath(fsPath string) (r string, err error)
+//@   props C09 C04
+//@   requires fs != nil
+//@   ensures "gate" implies(!VP(fsPath), r == "" && isPathError(err) && pathOf(err) == fsPath && errIs(err, hackpadfs.ErrInvalid))
+//@   ensures "join" implies(VP(fsPath), err == nil && r == osPathOf(fs, "linux", '/', fsPath))
+//@   nopanic
+
+//@ extern path/filepath.IsAbs(path string) (r bool)
+//@   pure
+//@   deterministic
+
+//@ func (fs *FS) FromOSPath(osPath string) (r string, err error)
+//@   props C09 C05
+//@   requires fs != nil
+//@   ensures "errpath" implies(err != nil, r == "" && isPathError(err) && pathOf(err) == osPath && errIs(err, hackpadfs.ErrInvalid))
+//@   ensures "absolute" implies(err == nil, ret("path/filepath.IsAbs", 0, osPath))
+//@   ensures "valid" implies(err == nil, VP(r))
+//@   nopanic
